@@ -128,6 +128,8 @@ Definition py_endswith (s suf : string) : bool :=
   let n := String.length s in let m := String.length suf in
   Nat.leb m n && String.eqb (String.substring (n - m) m s) suf.
 Definition py_drop_last (s : string) (m : nat) : string := String.substring 0 (String.length s - m) s.   (* s[0:-m] *)
+Definition py_removesuffix (s suf : string) : string :=                                                  (* s.removesuffix(suf) *)
+  if py_endswith s suf then py_drop_last s (String.length suf) else s.
 Definition py_sorted (l : list string) : list string := sort_uniq l.
 
 (** primitives NOT translated (tied differentially only): [get_constants]/[statements_get_constants] (the hard-coded
